@@ -98,6 +98,21 @@ def run(tier):
                                 name="server file with a wrong whole-data checksum, target %s, comp %d" % (tn, comp))
             sc.must = True; sc.bvalid = False
             sc.write_files(); scs.append(sc)
+    # deterministic: chunks whose stored size is ONE byte (ranges N-N), alone and between others; and the same download
+    # handle used again after a response that was damaged or stopped inside a chunk (the documented retry): the update
+    # still has to complete
+    c1B = [b""] + [(corpus.text(rnd, 30 + 5 * k) if k % 3 else corpus.text(rnd, 1)) for k in range(12)]
+    c1A = [b""] + [c1B[k] for k in range(1, 13) if k % 2 == 1]
+    kw = dict(comp_type=0, hash_type=1, chunk_hash_type=3)
+    A4 = ref.build_file(c1A, **kw)[0]; B4 = ref.build_file(c1B, **kw)[0]
+    e4 = delta.extents(ref.parse_header(B4))
+    for limit in (-1, 2, 1):
+        for frag, ro in ((0, None), (1, None), (0, {0: "corrupt=0"}), (7, {0: "corrupt=%d" % (e4[2][1] - e4[2][0])}), (0, {0: "stop=%d" % (60 if limit != 1 else 10)}), (0, {0: "corrupt=2", 1: "stop=70", 2: "corrupt=1"})):
+            for T4, tn in ((b"", "empty"),):
+                sc = delta.Scenario("p%d" % len(scs), wd, B4, T4, sources=[A4], limit=limit, frag=frag, round_opts=ro, rounds=20,
+                                    name="one-byte chunks, limit %d, frag %d, %s" % (limit, frag, "every response good" if not ro else "bad responses first: %s" % ro))
+                sc.must = True
+                sc.write_files(); scs.append(sc)
     nproc = 12
     parts = ["".join(s.script() for s in scs[i::nproc]) for i in range(nproc)]
     evs = [e for part in common.run_driver_parallel(parts, "plain", timeout=2400) for e in part]
